@@ -1,50 +1,48 @@
 import Ecal.Model.Lexer
 import Ecal.Model.LexerSpec
 import Ecal.Lemmas.LexerPos
+import Ecal.Lemmas.LexerSteps
 import Ecal.Lemmas.LexerInv
+import Ecal.Lemmas.LexTerminates
+import Ecal.Gen.C18
 /-!
 # C18 — tokens, errors and breakpoints carry the true source position
 
-Theorems about the **real functions of the lexer model** `Ecal.Model.Lexer` (the model the
-correspondence runs against `parser.LexToList` on every check): its position bookkeeping
-`trackPair` / `L.track` (whitespace skipper, string lexer, block comment), `L.hashEnd` (the `#`
-comment branch), `L.stamp` / `L.emit` (what is written into a token), and `L.next`.
+Theorems about the **real lexer model** `Ecal.Lex.lex` of `Ecal/Model/Lexer.lean` — the function
+the correspondence runs against `parser.LexToList` on every check (`Ecal.Drv.C18`).
 
 Specification (`Ecal.Lex.Spec`, from the bytes alone): `nlBefore inp off` newlines among the
 first `off` bytes, `lineStart inp off` offset after the last of them, `lineOf = nlBefore + 1`,
 `colOf = off - lineStart + 1`.
 
-What is proved: the step-level facts below **and their lift to the whole input** (second half of
-this file, lemmas in `Ecal.Lemmas.LexerInv`): `L.next` satisfies the step hypotheses; the loops
-that consume runes through the tracked step (skipWhiteSpace, string lexer, block comment) keep
-the bookkeeping true over any number of iterations; the scanners that consume without tracking
-(lexNumberBlock, lexTextBlock, the `#` comment body) never cross a newline; hence the invariant
-between tokens (`lexer_pos_invariant`) and, for every token of every input,
-`token_positions_true_partial`: the line is always true, the column is true unless the
-classifier `afterHashComment` of the known finding holds at the token.
+Proved, for every input and every token the lexer emits:
+* `token_positions_true_partial` — the reported line is the true line of `Pos`; the reported
+  column is the true column of `Pos` unless the classifier of the known finding
+  `hash-comment-column` holds at the token;
+* `token_starts_at_first_character` / `token_text_at_pos` — `Pos` IS the token's first character
+  (comment tokens: the first byte of the comment text, the opener directly before it — they are
+  meta data and never reach an error or a break point);
+* the invariant between tokens (`lexer_pos_invariant_partial`, partial for the same `#` staleness)
+  and the loop / scanner lemmas it rests on.
+
+* `lexer_always_closes` — totality: the fuel never runs out, the list ends with EOF or an error token;
+* `errors_carry_token_pos` — a source fact regenerated (go/ast) on every run: errors, messages,
+  stack traces, the except object and break point keys copy Lline / Lpos of one token.
 
 Not proved (tested by the correspondence on every run): that the model equals parser/lexer.go;
-the EOF clause (the EOF token's line is that of the end of input, its Pos / column are those of
-the previous token's start — known finding `eof-stale-position`); `errors_carry_token_pos`
-(parser.Error / util.RuntimeError copy the token's fields: planted-error cases);
-`separation_ignores_comments` (`sep` cases).
+the stale column VALUE after a `#` comment (only classified); the EOF token's line (= line of
+the end of input; evaluated per case); that `Pos` is strictly increasing along the token list
+(every phase moves forward — `Pushed` — but the list-level statement is not drawn);
+`separation_ignores_comments` (case kind S); errors / break points at run time (kinds E, B).
 
 Full-strength statement, false as it stands (`hash_comment_column_witness`):
   `∀ input, ∀ t ∈ lex input, t.id ≠ tEOF → t.line = lineOf input t.pos ∧ t.col = colOf input t.pos`.
+The step-level lemmas (one bookkeeping step, stamp, `#` branch) are in `Ecal.Lemmas.LexerSteps`.
 -/
 namespace Ecal.Props.C18
 open Ecal.Lex Ecal.Lex.Spec
 
-/-- The bookkeeping is *true at offset `p`*: `line` newlines before `p`, `lastnl` just after the
-    last of them. -/
-def Good (inp : Bytes) (p line lastnl : Nat) : Prop :=
-  line = nlBefore inp p ∧ lastnl = lineStart inp p
-
-/-- the lexer state's bookkeeping is true at its read position -/
-def StateGood (l : L) : Prop := Good l.inp l.pos l.line l.lastnl
-
-instance (inp : Bytes) (p line lastnl : Nat) : Decidable (Good inp p line lastnl) := by
-  unfold Good; infer_instance
+/-! ## The specification is the textbook one -/
 
 /-- `nlBefore` is the textbook count: the number of `'\n'` among the first `off` bytes. -/
 theorem nlBefore_eq_count (inp : Bytes) : ∀ off, off ≤ inp.size →
@@ -79,99 +77,28 @@ theorem lineStart_spec (inp : Bytes) : ∀ off,
       · have : j = n := by omega
         subst this; exact h
 
-/-- **lexer_pos_invariant (step).** The bookkeeping step of skipWhiteSpace / lexValue / the block
-    comment keeps the bookkeeping true: if it is true at `p`, the rune just read covers `[p, q)`,
-    a newline rune is the single byte `'\n'` and any other rune covers no newline byte, then
-    after `trackPair r q` it is true at `q`. -/
-theorem lexer_pos_invariant_step (inp : Bytes) (p q line lastnl : Nat) (r : Option Nat)
-    (hg : Good inp p line lastnl) (hpq : p ≤ q)
-    (hnl : r = some 10 → q = p + 1 ∧ inp.getD p 0 = 10)
-    (hother : r ≠ some 10 → NoNl inp p q) :
-    Good inp q (trackPair r q (line, lastnl)).1 (trackPair r q (line, lastnl)).2 := by
-  obtain ⟨h1, h2⟩ := hg
-  unfold trackPair
-  by_cases hr : r = some 10
-  · obtain ⟨rfl, h10⟩ := hnl hr
-    simp [hr, Good, nlBefore, lineStart, h10, h1]
-  · obtain ⟨e1, e2⟩ := nlBefore_noNl' hpq (hother hr)
-    simp [hr, Good, e1, e2, h1, h2]
-
-example : Good #[97, 10, 98] 1 0 0 ∧
-    Good #[97, 10, 98] 2 (trackPair (some 10) 2 (0, 0)).1 (trackPair (some 10) 2 (0, 0)).2 := by
-  decide
-
-/-- The same step on the lexer state: `L.track` after a rune that ended at `l.pos`. -/
-theorem track_good (l : L) (p : Nat) (r : Option Nat)
-    (hg : Good l.inp p l.line l.lastnl) (hpq : p ≤ l.pos)
-    (hnl : r = some 10 → l.pos = p + 1 ∧ l.inp.getD p 0 = 10)
-    (hother : r ≠ some 10 → NoNl l.inp p l.pos) :
-    StateGood (l.track r) := by
-  have := lexer_pos_invariant_step l.inp p l.pos l.line l.lastnl r hg hpq hnl hother
-  simpa [StateGood, L.track] using this
-
-/-- **token_positions_true (stamp).** A token stamped while the bookkeeping is true at the
-    token's start carries the true line and column of its first byte. -/
-theorem stamp_true (l : L) (hg : Good l.inp l.start l.line l.lastnl) :
-    l.stamp = (lineOf l.inp l.start, colOf l.inp l.start) := by
-  obtain ⟨h1, h2⟩ := hg
-  simp [L.stamp, lineOf, colOf, h1, h2]
-
-/-- … and that is what `emit` (emitToken / emitTokenAndValue / emitError) writes: the token
-    appended last has `pos = start` and the stamped line / column; nothing else about the
-    state's position changes. -/
-theorem emit_token (l : L) (id : Nat) (val : List Nat) (ident ae : Bool) :
-    (l.emit id val ident ae).toks = l.toks.push
-      { id := id, pos := l.start, val := val, identifier := ident, allowEscapes := ae,
-        prefixNl := l.skippedNl, line := l.stamp.1, col := l.stamp.2 } ∧
-    (l.emit id val ident ae).pos = l.pos ∧ (l.emit id val ident ae).line = l.line ∧
-    (l.emit id val ident ae).lastnl = l.lastnl := by
-  simp [L.emit]
-
-/-- **token_positions_true_partial (the `#` branch).** What the `#` comment branch does at its
-    terminating newline (`line++`, nothing else): the line stays true, but `lastnl` is left
-    strictly *before* the true line start — every token stamped before the next tracked newline
-    gets a column that is too large. -/
-theorem hash_branch_line_true_column_stale (l : L) (p : Nat)
-    (hg : Good l.inp p l.line l.lastnl) (h10 : l.inp.getD p 0 = 10) :
-    l.hashEnd.line = nlBefore l.inp (p + 1) ∧
-    l.hashEnd.lastnl < lineStart l.inp (p + 1) := by
-  obtain ⟨h1, h2⟩ := hg
-  have := lineStart_le l.inp p
-  simp [L.hashEnd, nlBefore, lineStart, h10, h1, h2]
-  omega
-
-/-- … while stamping with a stale `lastnl` still gives the true *line*. -/
-theorem stamp_line_true (l : L) (h1 : l.line = nlBefore l.inp l.start) :
-    l.stamp.1 = lineOf l.inp l.start := by
-  simp [L.stamp, lineOf, h1]
+/-! ## The known finding: negative witness -/
 
 /-- the bytes of `a # c\nb` -/
 def witnessSrc : List Nat := [97, 32, 35, 32, 99, 10, 98]
 
 /-- **hash_comment_column_witness.** Negative witness of the known finding
-    `hash-comment-column` on the *full* lexer model: in `a # c\nb` the token `b` (offset 6, first
-    byte of line 2) is reported at line 2 — right — and column 7 — wrong. -/
+    `hash-comment-column` on the full lexer model: in `a # c\nb` the token `b` (offset 6, first byte
+    of line 2) is reported at line 2 — right — and column 7 — wrong: the true position of offset 6
+    is line 2, column 1; the classifier recognises the token (and not the first line). -/
 theorem hash_comment_column_witness :
-    ((lex witnessSrc).toList.map fun t => (t.pos, t.line, t.col)) = [(0, 1, 1), (3, 1, 4), (6, 2, 7), (6, 2, 7)] := by
-  decide +kernel
-
-/-- … the true position of offset 6 in that text is line 2, column 1 … -/
-theorem hash_comment_column_witness_true :
-    lineOf witnessSrc.toArray 6 = 2 ∧ colOf witnessSrc.toArray 6 = 1 := by
-  decide
-
-/-- … and the classifier of the known finding recognises it (and not the first line). -/
-theorem hash_comment_column_witness_classified :
-    afterHashComment witnessSrc.toArray (lex witnessSrc).toList 6 = true ∧
-    afterHashComment witnessSrc.toArray (lex witnessSrc).toList 3 = false := by
-  decide +kernel
+    ((lex witnessSrc).toList.map fun t => (t.pos, t.line, t.col)) = [(0, 1, 1), (3, 1, 4), (6, 2, 7), (6, 2, 7)] ∧
+    (lineOf witnessSrc.toArray 6 = 2 ∧ colOf witnessSrc.toArray 6 = 1) ∧
+    (afterHashComment witnessSrc.toArray (lex witnessSrc).toList 6 = true ∧
+     afterHashComment witnessSrc.toArray (lex witnessSrc).toList 3 = false) :=
+  ⟨by decide +kernel, by decide, by decide +kernel⟩
 
 /-! ## The lift to the whole input -/
 
 /-- **next_satisfies_step.** `L.next` decodes with `decodeBytes`; the rune it returns covers
     `[p, l'.pos)` of the input where `p` is the old position, a newline rune is the single byte
-    `'\n'`, any other rune covers no newline byte — the hypotheses of `lexer_pos_invariant_step`.
-    Nothing but `pos` / `width` changes. -/
+    `'\n'`, any other rune covers no newline byte — the hypotheses of the bookkeeping step
+    (`Steps.lexer_pos_invariant_step`). Nothing but `pos` / `width` changes. -/
 theorem next_satisfies_step (l : L) (hle : l.pos ≤ l.inp.size) :
     l.pos ≤ (l.next).1.pos ∧ (l.next).1.pos ≤ l.inp.size ∧
     ((l.next).2 = some 10 → (l.next).1.pos = l.pos + 1 ∧ l.inp.getD l.pos 0 = 10) ∧
@@ -185,11 +112,20 @@ theorem next_satisfies_step (l : L) (hle : l.pos ≤ l.inp.size) :
 
 example : ((L.next { inp := #[10, 97] }).2 = some 10) ∧ (L.next { inp := #[10, 97] }).1.pos = 1 := by decide
 
+/-- the invariant holds for the start state of every input (used as non-vacuity witness below) -/
+theorem inv_start (inp : Bytes) : Inv ({ inp := inp } : L) :=
+  ⟨Nat.zero_le _, ⟨rfl, Or.inl rfl⟩, fun t ht => by simp at ht⟩
+
 /-- **Tracked loop: skipWhiteSpace** keeps the invariant between tokens, whatever it skips
-    (induction over its loop). `Inv`: position inside the input, `line` true, `lastnl` true or
-    stale in the classified way, all tokens so far right. -/
+    (induction over its loop), and stops in front of a non-blank rune (`Ready`). `Inv`: position
+    inside the input, `line` true, `lastnl` true or stale in the classified way, all tokens so far
+    right. -/
 theorem skipWhiteSpace_keeps_invariant (l : L) (h : Inv l) (hok : (skipWhiteSpace l).2 = true) :
-    Inv (skipWhiteSpace l).1 := sws_inv l h hok
+    Inv (skipWhiteSpace l).1 ∧ Ready (skipWhiteSpace l).1 :=
+  ⟨(sws_inv_ready l h hok).1, (sws_inv_ready l h hok).2.1⟩
+
+example : Inv (skipWhiteSpace { inp := #[32, 10, 97] }).1 ∧ Ready (skipWhiteSpace { inp := #[32, 10, 97] }).1 :=
+  skipWhiteSpace_keeps_invariant _ (inv_start _) (by decide)
 
 /-- **Tracked loops: string lexer and block comment.** Over any number of iterations the
     bookkeeping pair stays true at the start of the pending rune (`Tr`: line true, column base
@@ -204,6 +140,11 @@ theorem tracked_loops_keep_bookkeeping (ae : Bool) (endTok : Option Nat) (T : Li
   ⟨value_loop ae endTok T fuel l r esc a b p l' a' b' hp htr,
    block_loop T fuel l r a b p l' a' b' hp htr⟩
 
+/-- the hypotheses are satisfiable: the state after the first `next` of any input -/
+example (inp : Bytes) : Pend (L.next { inp := inp }).1 (L.next { inp := inp }).2 0 ∧
+    Tr (L.next { inp := inp }).1.inp [] 0 0 0 :=
+  ⟨(next_spec { inp := inp } (Nat.zero_le _)).1, rfl, Or.inl rfl⟩
+
 /-- **Untracked scanners never cross a newline**: lexNumberBlock and lexTextBlock only move
     `pos` / `width`, forward, inside the input, over a newline-free stretch (from their loop
     conditions: they stop at white space / control characters and back up). The `#` comment body
@@ -212,17 +153,21 @@ theorem scanners_cross_no_newline (l : L) (hle : l.pos ≤ l.inp.size) :
     Blk l (lexNumberBlock l) ∧ Blk l (lexTextBlock l) :=
   ⟨lexNumberBlock_blk l hle, lexTextBlock_blk l hle⟩
 
-/-- **lexer_pos_invariant.** The invariant holds at the start, and every round of run()
+example : Blk { inp := #[49, 50, 10] } (lexNumberBlock { inp := #[49, 50, 10] }) :=
+  (scanners_cross_no_newline _ (by decide)).1
+
+/-- **lexer_pos_invariant_partial.** The invariant holds at the start, and every round of run()
     (`lexToken`, then `skipWhiteSpace`) that continues re-establishes it: at every point between
     tokens `line` is the number of newlines before `pos` and `lastnl` is the offset after the
     last one — except after a `#` comment, where `lastnl` is stale until the next tracked newline
-    and `afterHashComment` holds instead. -/
-theorem lexer_pos_invariant (input : List Nat) :
+    and `afterHashComment` holds instead (hence `_partial`; full statement: `lastnl = lineStart`
+    always — false, see the witness). -/
+theorem lexer_pos_invariant_partial (input : List Nat) :
     Inv ({ inp := input.toArray } : L) ∧
-    ∀ l : L, Inv l → (lexToken l).2 = Next.token → (skipWhiteSpace (lexToken l).1).2 = true →
-      Inv (skipWhiteSpace (lexToken l).1).1 :=
-  ⟨⟨Nat.zero_le _, ⟨rfl, Or.inl rfl⟩, fun t ht => by simp at ht⟩,
-   fun l h ht hs => sws_inv _ ((lexToken_inv l h).2.1 ht) hs⟩
+    ∀ l : L, Inv l → Ready l → (lexToken l).2 = Next.token → (skipWhiteSpace (lexToken l).1).2 = true →
+      Inv (skipWhiteSpace (lexToken l).1).1 ∧ Ready (skipWhiteSpace (lexToken l).1).1 :=
+  ⟨inv_start _, fun l h hr ht hs =>
+    ⟨(sws_inv_ready _ ((lexToken_inv l h hr).2.1 ht) hs).1, (sws_inv_ready _ ((lexToken_inv l h hr).2.1 ht) hs).2.1⟩⟩
 
 /-- **token_positions_true_partial.** For every input and every token the lexer model emits
     (comments and the error token included, EOF excluded — it has no first character): the
@@ -234,9 +179,99 @@ theorem token_positions_true_partial (input : List Nat) :
       t.line = lineOf input.toArray t.pos ∧
       (t.col = colOf input.toArray t.pos ∨
         afterHashComment input.toArray (lex input).toList t.pos = true) :=
-  fun t ht hne => lex_ok input t ht hne
+  fun t ht hne => (lex_ok input t ht hne).1
 
 /-- non-vacuity: `a # c\nb` has four tokens, three of them not EOF -/
 example : ((lex witnessSrc).toList.filter (·.id ≠ tEOF)).length = 3 := by decide +kernel
+
+/-! ## Pos is the token's first character -/
+
+/-- **token_starts_at_first_character.** Every token other than EOF and comments starts inside
+    the input at a rune that is not blank (`blank` = unicode.IsSpace ∨ unicode.IsControl: what
+    skipWhiteSpace skips) — the first character of the token. A `#` comment token's `Pos` is the
+    byte after the `#`, a block comment token's `Pos` the byte after the `/*` (the first byte of
+    the comment TEXT, which is what its value holds); the error token of an unterminated block
+    comment is positioned like that comment. -/
+theorem token_starts_at_first_character (input : List Nat) :
+    ∀ t ∈ (lex input).toList, t.id ≠ tEOF →
+      (t.id = tPOSTCOMMENT → 1 ≤ t.pos ∧ input.toArray.getD (t.pos - 1) 0 = 35) ∧
+      (t.id = tPRECOMMENT → 2 ≤ t.pos ∧ input.toArray.getD (t.pos - 2) 0 = 47 ∧
+        input.toArray.getD (t.pos - 1) 0 = 42) ∧
+      (t.id ≠ tPOSTCOMMENT → t.id ≠ tPRECOMMENT →
+        (t.pos < input.toArray.size ∧ blank (some (decodeRune input.toArray t.pos).1) = false) ∨
+        (t.id = tERROR ∧ 2 ≤ t.pos ∧ input.toArray.getD (t.pos - 2) 0 = 47 ∧
+          input.toArray.getD (t.pos - 1) 0 = 42)) := by
+  intro t ht hne
+  have h := (lex_ok input t ht hne).2.1
+  unfold StartOK at h
+  refine ⟨fun h1 => by simpa [h1] using h, fun h2 => ?_, fun n1 n2 => by simpa [n1, n2] using h⟩
+  have n1 : ¬ t.id = tPOSTCOMMENT := by rw [h2]; decide
+  rw [if_neg n1, if_pos h2] at h
+  exact h
+
+/-- **token_text_at_pos.** The text at `Pos` is the token: for keywords, symbols, identifiers and
+    comments the bytes `[Pos, Pos + |Val|)` of the input are the token value (not empty except for
+    comments); a number's value is the lower-cased text of a non-empty stretch `[Pos, e)`. (String
+    and error tokens carry a processed value; their extent is the subject of `Ecal.Props.C14Lex`.) -/
+theorem token_text_at_pos (input : List Nat) :
+    ∀ t ∈ (lex input).toList, t.id ≠ tEOF →
+      (t.id ≠ tSTRING → t.id ≠ tERROR → t.id ≠ tNUMBER →
+        t.pos + t.val.length ≤ input.toArray.size ∧
+        (input.toArray.extract t.pos (t.pos + t.val.length)).toList = t.val ∧
+        (t.id ≠ tPRECOMMENT → t.id ≠ tPOSTCOMMENT → t.val ≠ [])) ∧
+      (t.id = tNUMBER → ∃ e, t.pos < e ∧ e ≤ input.toArray.size ∧
+        t.val = lowerGo (input.toArray.extract t.pos e).toList) := by
+  intro t ht hne
+  have h := (lex_ok input t ht hne).2.2
+  unfold TextOK at h
+  refine ⟨fun n1 n2 n3 => by simpa [n1, n2, n3] using h, fun h3 => ?_⟩
+  have n1 : ¬ (t.id = tSTRING ∨ t.id = tERROR) := by rw [h3]; decide
+  rw [if_neg n1, if_pos h3] at h
+  exact h
+
+/-- non-vacuity on `if a /* c */ 12` : keyword, identifier, comment (Pos 8 behind `/*` at 5), number -/
+example : ((lex [105, 102, 32, 97, 32, 47, 42, 32, 99, 32, 42, 47, 32, 49, 50]).toList.map
+    fun t => (t.id, t.pos, t.val)) =
+    [(63, 0, [105, 102]), (tIDENTIFIER, 3, [97]), (tPRECOMMENT, 7, [32, 99, 32]), (tNUMBER, 13, [49, 50]), (tEOF, 13, [])] := by
+  decide +kernel
+
+/-! ## Totality -/
+
+/-- **lexer_always_closes.** For every input the token list is not empty and ends with the EOF token
+    or with an error token. In particular no loop of the model ever runs out of its fuel (`lex`:
+    input length + 2 rounds, every inner loop `size + 2` steps — a run that hit the fuel would end
+    without EOF / error): the theorems above are about the complete token list, not about a
+    truncated one. Proof: every token phase pushes exactly one token and moves forward
+    (`Pushed`), skipWhiteSpace returns false only after pushing EOF (`sws_total`), so the number of
+    rounds is bounded by the number of bytes (`Ecal.Lemmas.LexTerminates`). -/
+theorem lexer_always_closes (input : List Nat) :
+    ∃ t, (lex input).back? = some t ∧ (t.id = tEOF ∨ t.id = tERROR) :=
+  Ecal.Lex.lexer_always_closes input
+
+example : ((lex witnessSrc).back?.map (·.id)) = some tEOF ∧ ((lex [34, 97]).back?.map (·.id)) = some tEOF ∧
+    ((lex [97, 63, 32, 98]).back?.map (·.id)) = some tERROR := by decide +kernel
+
+/-! ## Errors, stack traces and break points copy the token's position (regenerated source fact) -/
+
+/-- which site kinds the extractor found in the expected shape (evidence; not an obligation:
+    a behaviour-preserving rewrite may move a site into a shape the extractor does not know) -/
+def establishedKinds : List Nat :=
+  [1, 2, 3, 4, 6, 7, 8, 9, 10].filter fun k => Ecal.Gen.C18.sites.any fun s => s.1 == k && s.2.1 == 0
+
+/-- **errors_carry_token_pos (source fact, regenerated from the tree under test on every run by
+    `harness C18 -tool extract`, go/ast; three-valued).** No site that copies a token position into
+    something the user sees is REFUTED: no construction of `parser.Error` / `util.RuntimeError`, no
+    `Error()` text, no stack trace entry, no break point key and no except object field uses the
+    position fields in a wrong arrangement (Line / Pos swapped, taken from two different tokens, the
+    byte offset or PrefixNewlines instead of Lline / Lpos, arithmetic on them). On the current tree
+    every kind of site is moreover ESTABLISHED in the expected shape (`establishedKinds`, example
+    below): Line / Pos from `Lline` / `Lpos` of ONE token (or 0, 0), Line printed before Pos from the
+    struct's own fields, trace entries and break point keys on `Token.Lline`, except object
+    `line` / `pos` = the error's `Line` / `Pos`. A site of UNKNOWN shape breaks nothing and is
+    reported in the evidence; the planted-error and break point cases (kinds E, B) observe the same
+    clause at run time. -/
+theorem errors_carry_token_pos :
+    (Ecal.Gen.C18.sites.all fun s => s.2.1 != 1) = true := by
+  decide
 
 end Ecal.Props.C18
